@@ -2,14 +2,15 @@
 package collection
 
 // C16 — in-memory Cache: latest value unless deleted/evicted, size <= limit, LRU eviction order,
-// Take calls the loader only on a miss. The real TimingWheel goroutine runs under the engine's
-// scheduler (its ticker never fires here: expiry is C12's subject).
+// Take calls the loader only on a miss. The timing wheel is a passive mailbox (buffered command
+// channels, no run goroutine): expiry is C12's subject.
 
 import (
 	"errors"
 	"time"
 
 	rt "github.com/zeromicro/go-zero/internal/verifrt"
+	"github.com/zeromicro/go-zero/core/lang"
 	"github.com/zeromicro/go-zero/core/mathx"
 	"github.com/zeromicro/go-zero/core/syncx"
 )
@@ -38,12 +39,17 @@ func c16NewCache(limit int) *Cache {
 	if limit > 0 {
 		cache.lruCache = newKeyLru(limit, cache.onEvict)
 	}
-	tw, err := NewTimingWheelWithTicker(time.Second, 4, func(k, v any) {
-		if key, ok := k.(string); ok {
-			cache.Del(key)
-		}
-	}, c16Ticker{c: make(chan time.Time)})
-	rt.Assert(err == nil, "timing wheel construction succeeds")
+	// the wheel is only a mailbox here (expiry is C12's subject): its command channels are buffered and
+	// nobody drains them, so the cache code runs on one goroutine and no schedule has to be explored
+	tw := &TimingWheel{
+		interval:      time.Second,
+		numSlots:      4,
+		setChannel:    make(chan timingEntry, 64),
+		moveChannel:   make(chan baseEntry, 64),
+		removeChannel: make(chan any, 64),
+		drainChannel:  make(chan func(key, value any)),
+		stopChannel:   make(chan lang.PlaceholderType),
+	}
 	cache.timingWheel = tw
 	return cache
 }
@@ -84,8 +90,8 @@ func (m *c16Model) del(k string) {
 	delete(m.vals, k)
 }
 
-//verif:entry tier=quick,thorough steps=3000000 cover=evicted,hit,miss,loaderr,prefilled
-//verif:doc Cache/keyLru: limit in {1,2} (quick) / {0(unbounded),1,2,3} (thorough); 3 (quick) / 4 (thorough) operations, each symbolically Set/Get/Del/Take(loader ok)/Take(loader error) on a key from {a,b,c}, starting from an empty cache or (with one operation less) from one that already holds a (older) and b (newer); values symbolic; wheel ticker silent. Model: recency list + map.
+//verif:entry tier=quick,thorough steps=3000000 cover=evicted,hit,miss,loaderr,prefilled,reset
+//verif:doc Cache/keyLru: limit in {1,2} (quick) / {0(unbounded),1,2,3} (thorough); 3 (quick) / 4 (thorough) operations, each symbolically Set/Get/Del/Take(loader ok)/Take(loader error) on a key from {a,b,c}, starting from an empty cache or (with one operation less) from one that already holds a (older) and b (newer), a possibly having been deleted and set again; values symbolic; wheel ticker silent. Model: recency list + map.
 func Verif_C16_CacheLRU() {
 	limits := []int{1, 2}
 	nops := 3
@@ -98,13 +104,21 @@ func Verif_C16_CacheLRU() {
 	m := &c16Model{limit: limit, vals: map[string]int64{}}
 	keys := []string{"a", "b", "c"}
 	errLoad := errors.New("c16: load failed")
-	if rt.Choose("prefilled", 2) == 1 {
-		// start from a cache that already holds a (older) and b (newer), so that 3 further operations
-		// reach "overwrite the oldest key, then insert beyond the limit"
+	if pre := rt.Choose("prefilled", 3); pre > 0 {
+		// start from a cache that already holds a (older) and b (newer), so that the remaining operations
+		// reach "overwrite the oldest key, then insert beyond the limit"; variant 2 reaches that state
+		// through Set a, Del a, Set a, Set b (a key that was deleted and set again)
 		for j, k := range keys[:2] {
 			v := int64(100 + j)
 			c.Set(k, v)
 			m.set(k, v)
+			if pre == 2 && j == 0 {
+				c.Del(k)
+				m.del(k)
+				c.Set(k, v)
+				m.set(k, v)
+				rt.Cover("reset")
+			}
 		}
 		rt.Cover("prefilled")
 		nops-- // same depth as the empty start
